@@ -257,6 +257,19 @@ func (te *objectTypeExtension) testAssignable(paramValues hash.StringHash, g px.
 func (te *objectTypeExtension) testInstance(o px.Value, g px.Guard) bool {
 	return te.parameters.AllPair(func(key string, v1 interface{}) bool {
 		v2, ok := te.baseType.GetValue(key, o)
-		return ok && px.PuppetMatch(v2, v1.(px.Value))
+		if !ok {
+			return false
+		}
+		b := v1.(px.Value)
+		if px.PuppetMatch(v2, b) {
+			return true
+		}
+		// A parameter given as a type matches an attribute holding a type that it accepts (as in testAssignable)
+		if at, ok := v2.(px.Type); ok {
+			if bt, ok := b.(px.Type); ok {
+				return px.IsAssignable(bt, at)
+			}
+		}
+		return false
 	})
 }
